@@ -9,8 +9,7 @@ dst=/verif/seeded/$name
 wt=/tmp/ev_${SEED_NAME:-$id}
 mkdir -p $dst
 cp $out/patch.diff $dst/patch.diff
-for f in demo.sh demo.cpp notes.md; do [ -f $out/$f ] && cp $out/$f $dst/; done
-for f in $out/*.cpp $out/*.py; do [ -f "$f" ] && cp $f $dst/; done
+for f in $(find $out -maxdepth 1 -type f -size -300k ! -name "*.log" ! -name "*.h5" ! -name "*.so" ! -name "*.o"); do cp $f $dst/; done
 git -C /repo worktree remove --force $wt >/dev/null 2>&1
 git -C /repo worktree add --detach $wt HEAD -q || exit 3
 export XDG_DATA_HOME=/tmp/ev_${id}_xdg
